@@ -37,6 +37,9 @@ func SessionC15(t *tape.Tape) *core.RunResult {
 			k.PassThrough(p)
 		}
 	}
+	if t.Chance(1, 3) {
+		return sessionC15Engine(t, res, k)
+	}
 	b, g, ok := sb.PlayHistory(t, res, t.Chance(1, 2), 6, 1)
 	if !ok {
 		return res
